@@ -120,6 +120,8 @@ per_count("setopt_ptr", counts_quick=(0, 1), counts_thorough=(0, 1), entry="h_se
           cbmc=unw(6) + OOM, label="PTR arm, scalar; parse / release callbacks present or absent", props=["C07", "C14", "C10", "C09", "C02"], cost=10, **CF)
 per_count("setopt_str", counts_quick=(0, 1, 2), counts_thorough=(0, 1, 2), entry="h_setopt_str", func="cfg_setopt", harness="harness/setopt_arms.c",
           cbmc=unw(6) + OOM, label="STR arm with / without parse callback; strings <= 2 bytes; " + FLAGTXT, props=["C01", "C14", "C07", "C16", "C09", "C10", "C18", "C02"], cost=40, **CF)
+U("setopt_str_nofail", entry="h_setopt_str", func="cfg_setopt", harness="harness/setopt_arms.c", defs={"quick": ["-DNV=3", "-DSHAPE_N=1", "-DCFGV_NO_ALLOC_FAILURE"]}, cbmc=unw(6) + NOOOM,
+  label="bounded(shape: 1 value held; STR arm with / without parse callback, no allocation failure: an accepted text is stored; " + FLAGTXT + ")", props=["C14", "C09", "C01", "C10", "C07", "C16", "C02"], cost=20, **CF)
 U("setopt_str_release", entry="h_setopt_str_release", func="cfg_setopt", harness="harness/setopt_arms.c", defs={"quick": ["-DNV=2"]}, cbmc=unw(6) + NOOOM + LEAK,
   label="bounded(a set scalar string option, strings <= 2 bytes; no allocation failure; leak check)", props=["C07", "C09", "C02"], cost=5, **CF)
 U("setopt_args", entry="h_setopt_args", func="cfg_setopt", harness="harness/setopt_arms.c", defs={"quick": ["-DNV=2"]}, cbmc=unw(6) + OOM,
@@ -283,6 +285,8 @@ U("call_function", entry="h_call_function", func="call_function, cfg_free_value"
   **ENT, **ENTC2)
 U("init_defaults", entry="h_init_defaults", func="cfg_init_defaults", cbmc=unw(8) + NOOOM, label="bounded(one option; 14 literal kinds: type x LIST/NODEFAULT/MULTI x simple x textual default; callees by contract)",
   props=["C01", "C08", "C07", "C02"], cost=30, trusted=ENTTRUST, **ENT, **ENTC)
+U("init_defaults_names", entry="h_init_defaults_names", func="cfg_init_defaults", cbmc=unw(8) + NOOOM, label="bounded(two options, names 1 byte over all bytes, either case rule)",
+  props=["C01", "C06", "C02"], cost=5, trusted=ENTTRUST, **ENT, **ENTC)
 U("init_defaults_abort", entry="h_init_defaults_abort", func="cfg_init_defaults (abort path)", cbmc=unw(8) + NOOOM, expect_canary=False, label="proof (loop-free): finding unit", props=["C18", "C02"], cost=5,
   trusted=ENTTRUST, **ENT, **ENTC)
 U("addtsec", entry="h_addtsec", func="cfg_addtsec, cfg_gettsec, cfg_opt_gettsec, cfg_opt_gettsecidx", cbmc=unw(8) + NOOOM, label="bounded(one existing instance; titles 1 byte over all bytes; 4 case-rule combinations; store by contract)",
